@@ -243,6 +243,8 @@ def edit_behaviours(chk, exe, tier, rng, seed):
                 toks.append("p:-")
             elif h["op"] == "raw":
                 toks.append("g:%s" % p)
+            elif h["op"] == "detach":
+                toks.append("d:%s" % p)
             elif h["op"] == "remove":
                 toks.append("r:%s:%d" % (p, a["tag"]))
             elif h["op"] == "set" and not a["nc"] and not a["fw"] and rng.random() < 0.4:
@@ -271,7 +273,8 @@ def edit_behaviours(chk, exe, tier, rng, seed):
             return None
         out.append((cmd, chk_fn, "edit:%s" % "-".join(h["op"] for h in b["hist"])))
         # the same behaviour through the tree codec (KSI_TLV): nested lists, append / replace, raw value (collapses an expanded element), parse of its own output
-        ytoks = [("s" + t[1:].rsplit(":", 2)[0] + ":" + enc(dict(tag=int(t.split(":")[2]), nc=False, fw=False, len=len(bytes.fromhex(t.split(":")[3])) if t.split(":")[3] != "-" else 0), False)) if t[0] == "o" else t for t in toks]
+        toks_y = [("g" + t[1:]) if t[0] == "d" else t for t in toks]
+        ytoks = [("s" + t[1:].rsplit(":", 2)[0] + ":" + enc(dict(tag=int(t.split(":")[2]), nc=False, fw=False, len=len(bytes.fromhex(t.split(":")[3])) if t.split(":")[3] != "-" else 0), False)) if t[0] == "o" else t for t in toks_y]
         def ychk(o, b=b, ytoks=ytoks):
             got = o.split()[1:]
             if len(got) != len(b["hist"]):
